@@ -246,10 +246,15 @@ function prependPath(parentPath: string[], err: DecodeError): DecodeError {
   return { ...err, path: [...parentPath, ...err.path] };
 }
 
+// JSON.stringify throws on bigint; received values and Map/Set members may be bigints
+function stringifyWithBigInt(value: unknown): string {
+  return JSON.stringify(value, (_key, v) => (typeof v === "bigint" ? `${v}n` : v));
+}
+
 function deduplicateErrors(errors: DecodeError[]): DecodeError[] {
   const seen = new Set<string>();
   return errors.filter((err) => {
-    const key = JSON.stringify(err);
+    const key = stringifyWithBigInt(err);
     if (seen.has(key)) return false;
     seen.add(key);
     return true;
@@ -1635,12 +1640,12 @@ export class MapRuntype extends BaseRuntype {
     }
     let acc: DecodeError[] = [];
     for (const [k, v] of input) {
-      pushPath(ctx, `key(${JSON.stringify(k)})`);
+      pushPath(ctx, `key(${stringifyWithBigInt(k)})`);
       if (!this.keyParser.validate(ctx, k)) {
         acc = acc.concat(this.keyParser.reportDecodeError(ctx, k));
       }
       popPath(ctx);
-      pushPath(ctx, `value(${JSON.stringify(k)})`);
+      pushPath(ctx, `value(${stringifyWithBigInt(k)})`);
       if (!this.valueParser.validate(ctx, v)) {
         acc = acc.concat(this.valueParser.reportDecodeError(ctx, v));
       }
@@ -1697,7 +1702,7 @@ export class SetRuntype extends BaseRuntype {
     }
     let acc: DecodeError[] = [];
     for (const v of input) {
-      pushPath(ctx, `item(${JSON.stringify(v)})`);
+      pushPath(ctx, `item(${stringifyWithBigInt(v)})`);
       if (!this.itemParser.validate(ctx, v)) {
         acc = acc.concat(this.itemParser.reportDecodeError(ctx, v));
       }
